@@ -221,12 +221,8 @@ func checkDrawTermAgreement(p *core.Program, r *core.Report) {
 	if g.sepCall != nil && g.main != nil {
 		ok := false
 		for _, gd := range core.Guards(g.sepCall.Block()) {
-			if rel, isRel := core.AsRel(gd); isRel && rel.Op == token.LSS && rel.X == ssa.Value(g.main.Phi) {
-				if sub, isSub := rel.Y.(*ssa.BinOp); isSub && sub.Op == token.SUB && recipeField(sub.X, "Length") {
-					if k, isC := core.ConstInt(sub.Y); isC && k == 1 {
-						ok = true
-					}
-				}
+			if gapGuard(g, gd) != "" {
+				ok = true
 			}
 		}
 		r.Check(ok, "R6.2", name, "Length-1 separator calls, the multiplier of the separator entropy", p.InstrPos(g.sepCall), "")
